@@ -1,6 +1,8 @@
 (* Correspondence checker for C07: the model runs the scenario (sessions of writes / flushes / pipe operations, each
-   ended by a graceful stop or a SIGKILL and followed by file surgery) and predicts what every start shows:
-   refused, or the partitions with their events, the pipes, and the answer to a time-range probe. *)
+   ended by a graceful stop or a crash - SIGKILL, or a shutdown that dies inside its first saver - and followed by
+   crash-shaped states of the savers and file surgery) and predicts what every start shows: refused, or the partitions
+   with their events, the pipes, and the answer to a time-range probe.  The model runs as [code_fix], the variant the
+   theorems of props/C07.v are about. *)
 From LR Require Export lib.Base model.Persist.
 Open Scope Z_scope.
 
@@ -20,7 +22,7 @@ Definition sort_nat (l : list nat) : list nat := fold_right ins_nat [] l.
 Definition canon (o : obs) : obs :=
   match o with ORefused => ORefused | OStarted p q r => OStarted p (sort_nat q) r end.
 
-(* [skip]: partitions that lost acknowledged, unflushed records at the end of some session. Their sparse time index
+(* [skip]: partitions that lost acknowledged, unflushed records in a crash. Their sparse time index
    (outside the model) still describes the lost records; what RANGE answers on them is not compared (the oracle
    reports it as the finding index-ahead-of-journal) *)
 Fixpoint blank_at (skip : list nat) (i : nat) (rs : list (list Z)) : list (list Z) :=
